@@ -226,12 +226,18 @@ func newModel(seq sequence, snap map[string]stored) *model {
 		m.allowed[n] = valset{st.Val: true}
 		m.upstreamOf[n] = st.Upstream
 	}
-	for _, o := range seq.Ops {
+	note := func(o op) {
 		if o.Name != "" {
 			m.upstreamOf[o.Name] = o.Upstream
 			if m.allowed[o.Name] == nil {
 				m.allowed[o.Name] = valset{absent: true}
 			}
+		}
+	}
+	for _, o := range seq.Ops {
+		note(o)
+		if o.During != nil {
+			note(*o.During)
 		}
 	}
 	return m
